@@ -707,7 +707,7 @@ func fvalFromValue(fd FD, v protoreflect.Value) *FVal {
 func engineAPI(rep *Report) {
 	c := &apiCtx{rep: rep}
 	si, _ := shard()
-	subs := subjectsForShard()
+	subs := allSubjects()
 	if si == 0 {
 		// file-level checks once
 		for reg, disk := range repoProtos {
@@ -755,11 +755,16 @@ func engineAPI(rep *Report) {
 			subs = append(subs, &glue.Subject{FullName: z.ProtoReflect().Descriptor().FullName(), Zero: z, Origin: "checked-in"})
 		}
 	}
-	for _, s := range subs {
+	for ti, s := range subs {
 		s := s
 		rep.Types = append(rep.Types, string(s.FullName))
-		guardCase(rep, "C19", "api", string(s.FullName), -1, func() { c.messageStructure(s) })
+		if mineCase(ti, 0) {
+			guardCase(rep, "C19", "api", string(s.FullName), -1, func() { c.messageStructure(s) })
+		}
 		for i := 0; i < n; i++ {
+			if only < 0 && !mineCase(ti, i) {
+				continue
+			}
 			if only >= 0 && i != only {
 				continue
 			}
